@@ -20,6 +20,7 @@ def run(chk):
                     'results: their own behaviour is C01-C05, C07, C13, C15-C17; determinism of the three calls is C03')
     for ntx in (1, 2):
         one(chk, it, ntx)
+    one(chk, it, 2, resigned=True)
     # the proposer action is not a header field: its reward destination reaches the header only through the reward
     # pseudo-coin in the coin tree, which therefore has to be created for every action, whatever the amounts
     from props import c05
@@ -29,7 +30,7 @@ def run(chk):
     c05.reward_kernel(chk, it)
 
 
-def one(chk, it, ntx):
+def one(chk, it, ntx, resigned=False):
     G.reset()
     G.atomic_domains = {'single:Transaction'}
     st = State()
@@ -42,7 +43,11 @@ def one(chk, it, ntx):
     declared, dterms = S.sym_header('declared', pc)
     batch_ok = z3.Bool('batch_ok')
     batch_err = EnumV('StateError', variant_disc(it, 'StateError', 'MalformedTx'), {'MalformedTx': ()})
-    txs = [B.sym_tx('tx' + 'ab'[i], 1, 1, 1, pc)[0] for i in range(ntx)]
+    txs = [B.sym_tx('tx' + 'ab'[i], 1, 1, 1, pc, n_sigs=(1 if resigned else 0))[0] for i in range(ntx)]
+    if resigned:
+        # the second transaction is the first one with another signature field: a different member of the block's HashSet, the
+        # same transaction as far as hash_nosigs (and hence TransactionSet) is concerned
+        txs[1] = Agg('Transaction', list(txs[0].fields[:6]) + [txs[1].fields[6]])
     for i in range(ntx):
         for j in range(i + 1, ntx):
             pc.append(z3.Not(val_eq(txs[i], txs[j])))  # block.transactions is a set
@@ -109,7 +114,7 @@ def one(chk, it, ntx):
     covers = {}
     n = 0
     for idx, (s, o) in enumerate(outs):
-        name = 'apply_block/%dtx/%d' % (ntx, idx)
+        name = 'apply_block/%dtx%s/%d' % (ntx, '-resigned-copy' if resigned else '', idx)
         rp = lambda mo, s=s: replay(chk, mo, inputs)
         if isinstance(o, Panic):
             chk.obligation('PANIC/' + name, list(s.pc), z3.BoolVal(False), inputs, replay=rp, kind='PANIC', describe=str(o))
@@ -148,7 +153,7 @@ def one(chk, it, ntx):
     if n == 0:
         raise Inconclusive('apply_block has no returning path')
     for cname, alts in covers.items():
-        chk.cover_any('%s/%dtx' % (cname, ntx), alts)
+        chk.cover_any('%s/%dtx%s' % (cname, ntx, '-resigned-copy' if resigned else ''), alts)
     it.overrides = []
 
 
